@@ -34,9 +34,9 @@ PID = "C02"
 MODULE = "props.c02_bounded"
 BUDGETS = {"generous": (1e-5, 1000), "tight": (1e-12, 3)}
 REF_MAX_ITER = 5000
-BOUND = ("recursive FGGs within the bound of G (<= 3 nonterminals, <= 2 rules each, <= 3 nodes / 3 edges per rhs, "
+BOUND = ("recursive FGGs within the bound of G (<= 3 nonterminals, <= 3 rules each (random: 2), <= 3 nodes / 3 edges per rhs, "
          "arity <= 2, domain sizes 1..3): self-loop with cycle weight 0.3 / 0.9 / exactly 1 (Viterbi, Bool), mutual "
-         "recursion, non-linear X -> X X | a, chained linear/non-linear SCCs, recursion through arity 1-2, seeded random "
+         "recursion, non-linear X -> X X | a, chained linear/non-linear SCCs, recursion through arity 1-2, two linear rules with the same lhs and recursive nonterminal, Log cycles with log-weight -1e-4..-1e-13 (closed-form reference), seeded random "
          "recursive grammars; x 4 semirings x {float32, float64} x {fixed-point, newton, linear} x (tol,kmax) in "
          "{(1e-5,1000), (1e-12,3)}")
 
@@ -45,9 +45,10 @@ def _configs(recipe):
     meta = recipe.get("meta") or {}
     sems = meta.get("semirings") or G.SEMIRINGS
     buds = meta.get("budgets") or list(BUDGETS)
+    methods = meta.get("methods") or G.METHODS
     for s in sems:
         for d in (("bool",) if s == "Bool" else ("float32", "float64")):
-            for m in G.METHODS:
+            for m in methods:
                 for b in buds:
                     yield s, d, m, b
 
@@ -218,7 +219,11 @@ def _info(recipe) -> dict:
     meta = recipe.get("meta") or {}
     refs, scope = {}, {}
     for s in G.SEMIRINGS:
-        if s in (meta.get("divergent_in") or ()):
+        if s in (meta.get("closed_form") or {}):
+            # value known in closed form (Kleene iteration would need ~1/(1-w) steps)
+            r = G.RefValues(meta["closed_form"][s])
+            r.status = "finite"
+        elif s in (meta.get("divergent_in") or ()):
             r = G.reference_sum_products(recipe, s, max_iter=50)
             r.status = "divergent"
         else:
